@@ -11,6 +11,7 @@ namespace {
 
 struct Case {
     std::vector<uint8_t> bytes;
+    int                  twins{0}; // 1: numeric group values come from the table of numbers that share a 64-bit pattern across kinds
 };
 
 struct Member {
@@ -60,6 +61,29 @@ Member gen_group_value(Entropy &e) {
         case 8: m.kind = 2; m.json = "true"; break;
         case 9: m.kind = 3; m.json = "false"; break;
         default: m.kind = 4; m.json = "null"; break;
+    }
+    return m;
+}
+
+// Numbers of different kinds whose stored 64-bit patterns coincide (-1 and 2^64-1, 2^62 and 2.0, the pattern of 1.0 as an
+// integer and 1.0, -2^63 and 2^63), next to equal values of different kinds (2 and 2.0): distinct texts must stay distinct
+// groups and equal texts one group, whatever sits in the slot before.
+Member twin_value(unsigned k) {
+    Member m;
+    m.key = kGroupKey;
+    switch (k % 12) {
+        case 0: m.kind = 0; m.i = -1; m.json = "-1"; break;
+        case 1: m.kind = 8; m.i = -1; m.json = "18446744073709551615"; break;
+        case 2: m.kind = 8; m.i = (long long)(1ULL << 62); m.json = "4611686018427387904"; break;
+        case 3: m.kind = 5; m.d = 2.0; m.json = "2"; break;
+        case 4: m.kind = 8; m.i = 2; m.json = "2"; break;
+        case 5: m.kind = 8; m.i = 4607182418800017408LL; m.json = "4607182418800017408"; break;
+        case 6: m.kind = 5; m.d = 1.0; m.json = "1"; break;
+        case 7: m.kind = 0; m.i = (long long)(1ULL << 63); m.json = "-9223372036854775808"; break;
+        case 8: m.kind = 8; m.i = (long long)(1ULL << 63); m.json = "9223372036854775808"; break;
+        case 9: m.kind = 8; m.i = 4609434218613702656LL; m.json = "4609434218613702656"; break;
+        case 10: m.kind = 5; m.d = 1.5; m.json = "1.5"; break;
+        default: m.kind = 0; m.i = 1; m.json = "1"; break;
     }
     return m;
 }
@@ -123,6 +147,7 @@ Scenario make_scenario(const Case &c, Value<char> &arr) {
     unsigned n = e.below(13);
     arr        = Value<char>{ValueType::Array};
     size_t first_pos = size_t(-1);
+    unsigned twin_counter = 0;
     for (unsigned i = 0; i < n; ++i) {
         Obj         o;
         Value<char> v{ValueType::Object};
@@ -140,6 +165,11 @@ Scenario make_scenario(const Case &c, Value<char> &arr) {
         idm.json = std::to_string(i);
         plan.insert(plan.begin() + long(e.below(unsigned(plan.size()) + 1)), idm);
         Member g   = gen_group_value(e);
+        if (c.twins != 0 && (g.kind == 0 || g.kind == 8 || g.kind == 5)) {
+            // neighbours in the table are the pairs that share a pattern: walk it mostly forwards from a case-dependent start
+            g = twin_value(unsigned(c.bytes.empty() ? 0 : c.bytes[0]) + twin_counter);
+            twin_counter += (g.i & 1) ? 1 : (i % 3 == 2 ? 11 : 1);
+        }
         size_t pos = e.below(unsigned(plan.size()) + 1);
         plan.insert(plan.begin() + long(pos), g);
         if (first_pos == size_t(-1)) {
@@ -199,15 +229,19 @@ struct H {
     static const char *name() { return "C18 group by"; }
     static rc::Gen<Case> gen() {
         using namespace rc;
-        return gen::map(gen::resize(200, gen::container<std::vector<uint8_t>>(gen::arbitrary<uint8_t>())), [](std::vector<uint8_t> b) {
-            Case c;
-            c.bytes = std::move(b);
-            return c;
-        });
+        return gen::map(gen::tuple(gen::resize(200, gen::container<std::vector<uint8_t>>(gen::arbitrary<uint8_t>())), pbt::pick<int>({0, 0, 1})),
+                        [](std::tuple<std::vector<uint8_t>, int> t) {
+                            Case c;
+                            c.bytes = std::get<0>(t);
+                            c.twins = std::get<1>(t);
+                            return c;
+                        });
     }
-    // coverage-guided mode: the bytes are the entropy
+    // coverage-guided mode: selector byte, then entropy
     static bool from_fuzz(const uint8_t *d, size_t n, Case &c) {
-        c.bytes.assign(d, d + n);
+        pbt::FuzzBytes f(d, n);
+        c.twins = (f.sel() % 3) == 0;
+        c.bytes = f.rest();
         return true;
     }
     static std::string to_text(const Case &c) {
@@ -219,6 +253,7 @@ struct H {
             hex += b;
         }
         kv.put("bytes", hex);
+        kv.put("twins", c.twins);
         Value<char> arr;
         make_scenario(c, arr);
         String<char> s = arr.Stringify();
@@ -232,6 +267,7 @@ struct H {
         for (size_t i = 0; i + 1 < hex.size(); i += 2) {
             c.bytes.push_back(uint8_t(strtoul(hex.substr(i, 2).c_str(), nullptr, 16)));
         }
+        c.twins = int(kv.geti("twins", 0));
         return c;
     }
 
@@ -245,6 +281,7 @@ struct H {
             ctx.nontrivial();
         }
         ctx.label("key-position-varies", sc.key_position_varies);
+        ctx.label("numeric-twins", c.twins != 0);
         ctx.label("has-removed-members", sc.has_removed);
         ctx.label("empty-array", sc.objs.empty());
 
